@@ -384,3 +384,29 @@ def c02_site(w, app):
         if a is not app and not a.server and a.shape()[0] == shape:
             return 'same-shape-pending'
     return 'tree-search'
+
+
+# ------------------------------------------------------------------ C06 -----
+def mon_c06_once(w, pre, res, queues):
+    """Each cycle considers every instance of a partition exactly once: the
+    queues handed to placement, taken together, contain every instance of
+    Cell.apps exactly once and nothing else (also after instances were moved
+    between allocations or removed)."""
+    cell = w.cell
+    seen = collections.Counter()
+    for q in queues:
+        seen.update(q)
+    w.stats['c06_cycles_checked'] += 1
+    if any(len(q) > 1 for q in queues):
+        w.stats['c06_cycles_with_two_or_more_queued'] += 1
+    for name, n in seen.items():
+        if n > 1:
+            w.flag('instance-queued-more-than-once', 'Cell.schedule',
+                   {'app': w.tmpl.get(name, name), 'times': n})
+        if name not in cell.apps:
+            w.flag('removed-instance-still-queued', 'Cell.schedule',
+                   {'app': w.tmpl.get(name, name)})
+    for name in cell.apps:
+        if name not in seen:
+            w.flag('instance-not-queued', 'Cell.schedule',
+                   {'app': w.tmpl.get(name, name)})
